@@ -304,6 +304,40 @@ def verbOdo (fields : List Sexp) : String :=
     pure (" ".intercalate ("ok" :: out.map fun t => "(" ++ " ".intercalate (t.map toString) ++ ")"))
   r.getD "bad-case"
 
+/-- The table argument `(name xHEX…)` of a case. -/
+def tableField (name : String) (fields : List Sexp) : SymTable :=
+  match field name fields with
+  | some l => l.filterMap fun x => match x with | .atom h => decodeHex h | _ => none
+  | none => []
+
+def gateVerdict (tbl : SymTable) (m : Wire.BlockMsg) : String :=
+  match gateAnswer tbl m with
+  | .ok => "ok" | .overlap => "overlap" | .undeclared => "undeclared"
+
+/-- GATE: (case (buildbase x…) (newbase x…) (auth (block …)) [(buildbase2 x…) (later (block …))])
+— a block built by a block builder over `buildbase` is handed to `New` over `newbase`; when
+that succeeds, a second block built over `buildbase2` is appended. Prints both answers and,
+for an accepted block, its serialized content. -/
+def verbGate (fields : List Sexp) : String :=
+  let r : Option String := do
+    let a ← match ← field "auth" fields with | [b] => decBlock b | _ => none
+    let bb := tableField "buildbase" fields
+    let nb := tableField "newbase" fields
+    let m := (buildBlockMsg bb { block := a, context := [] }).2
+    let v := gateVerdict nb m
+    if v != "ok" then return s!"new={v}"
+    let out := s!"new=ok block={encodeHex (Wire.encodeBlock m)}"
+    match field "later" fields with
+    | some [b2] =>
+      let l ← decBlock b2
+      let bb2 := tableField "buildbase2" fields
+      let m2 := (buildBlockMsg bb2 { block := l, context := [] }).2
+      let v2 := gateVerdict (extendTable nb m.symbols) m2
+      if v2 != "ok" then return s!"{out} append={v2}"
+      pure s!"{out} append=ok block2={encodeHex (Wire.encodeBlock m2)}"
+    | _ => pure out
+  r.getD "bad-case"
+
 def runVerb (verb : String) (sx : Sexp) : String :=
   match sx with
   | .list (.atom "case" :: fields) =>
@@ -320,6 +354,7 @@ def runVerb (verb : String) (sx : Sexp) : String :=
     | "PRINT" => verbPrint fields
     | "SNAP" => verbSnap fields
     | "ODO" => verbOdo fields
+    | "GATE" => verbGate fields
     | _ => "bad-verb"
   | _ => "bad-case"
 
